@@ -69,3 +69,22 @@ Theorem C05_more_terms_example :
   st_total mt_s2 = 3594.
 Proof. exact C05_more_terms_example_proof. Qed.
 Print Assumptions C05_more_terms_example.
+
+(* Capacity excess as an objective (objectives.capacities with the capacity
+   constraint switched off) is a term like the others: C05_total_is_sum,
+   C05_terms_are_recomputation and C05_history_independent above hold for every
+   input, this one included.  Non-vacuity: stop 0 picks up 3, stop 1 drops 1, one
+   vehicle of capacity 1; on the route start, 0, 1, end the levels are 0, 3, 2, 2
+   and the excess counts at every position - the vehicle's last stop included -
+   plus the offset once; factor 10. *)
+Theorem C05_capacity_objective_example :
+  wf_input co_inp /\ reachable co_inp co_s2 /\
+  map route_stops (st_routes co_s2) = [[2; 0; 1; 3]]%nat /\
+  map (fun c => nthZ (c_levels c) 0) (get_route co_s2 0) = [0; 3; 2; 2] /\
+  has_capacity co_inp = false /\ cap_has_neg co_inp 0 = true /\
+  obj_capacity_excess co_inp co_s2 0 5 = (0 + 2 + 1 + 1) + 5 /\
+  score_terms co_inp co_s2 = [180; 0; 90] /\
+  st_scores co_s2 = [180; 0; 90] /\ st_total co_s2 = 270 /\
+  obj_capacity_excess co_inp co_s1 0 5 = (0 + 2 + 2) + 5.
+Proof. exact C05_capacity_objective_example_proof. Qed.
+Print Assumptions C05_capacity_objective_example.
